@@ -1,6 +1,7 @@
 CONSTANTS
   MaxLen = 3
   MaxBin = 6
+  MaxWords = 4
 SPECIFICATION GSpec
 CONSTRAINT Emit
 CHECK_DEADLOCK FALSE
